@@ -5,6 +5,7 @@ import (
 	"context"
 	"errors"
 	"fmt"
+	"io"
 	"net"
 	"net/http"
 	"net/http/httputil"
@@ -762,6 +763,11 @@ func (lb *LoadBalancer) proxyRequest(backend *Backend, w http.ResponseWriter, r 
 		}
 	}()
 
+	// Remember a failure to read the client's body (see abandonedByClient)
+	if r.Body != nil && r.Body != http.NoBody {
+		r.Body = &clientBody{ReadCloser: r.Body}
+	}
+
 	// Forward the request to the selected backend
 	backend.ReverseProxy.ServeHTTP(rw, r)
 	completed = true
@@ -782,8 +788,10 @@ func (lb *LoadBalancer) recordRequestMetrics(backend *Backend, statusCode int, s
 	lb.metricsCollector.RecordResponse(success, responseTime)
 	lb.metricsCollector.RecordBackendRequest(backend.Name, success, responseTime)
 
-	// Check if the backend returned an error status code (5xx) and passive health checks are enabled
-	if statusCode >= 500 && lb.healthChecks.passiveEnabled {
+	// Check if the backend returned an error status code (5xx) and passive health checks are enabled.
+	// An exchange that failed on the client's side is answered 502 by the reverse proxy without the
+	// backend having failed: it is not a health observation.
+	if statusCode >= 500 && lb.healthChecks.passiveEnabled && !abandonedByClient(r) {
 		lb.handlePassiveHealthCheck(backend, statusCode, r)
 		return
 	}
@@ -823,6 +831,32 @@ func (lb *LoadBalancer) handlePassiveHealthCheck(backend *Backend, statusCode in
 		lb.healthChecks.unhealthyBackends[backend.Name] = 0
 		lb.healthChecks.unhealthyBackendMu.Unlock()
 	}
+}
+
+// clientBody wraps the body of an incoming request and remembers that reading it failed (upload cut
+// short, size limit exceeded). The transport reads the body on its own goroutine, hence the atomic.
+type clientBody struct {
+	io.ReadCloser
+	failed int32
+}
+
+// Read reads from the client's body and records a failure other than the regular end of the body
+func (b *clientBody) Read(p []byte) (int, error) {
+	n, err := b.ReadCloser.Read(p)
+	if err != nil && err != io.EOF {
+		atomic.StoreInt32(&b.failed, 1)
+	}
+	return n, err
+}
+
+// abandonedByClient reports whether the exchange failed on the client's side: the client went away
+// (the request's context is cancelled) or did not deliver the body it announced.
+func abandonedByClient(r *http.Request) bool {
+	if r.Context().Err() != nil {
+		return true
+	}
+	body, ok := r.Body.(*clientBody)
+	return ok && atomic.LoadInt32(&body.failed) != 0
 }
 
 // responseWriter is a custom ResponseWriter that captures the status code
